@@ -57,6 +57,9 @@ CLAIMED = {
  "C16": ("lattice", "bounded-exhaustive enumeration of a structure-aware token-edit catalogue x clock positions x deployments through the real RequireAccount / RequireAttribute handlers, against a three-valued reference model",
          "Genuine session and tracking tokens are minted by the real codecs (RSA and ECDSA keys, default and custom lifetime / cookie name); every catalogued edit (algorithm substitution incl. none and HMAC keyed with the public key, re-signing by own / other / other-family keys, header extras, each claim removed / altered / mistyped, audience arrays, marker swap, other deployments, every signature byte flip and truncation, segment counts, encoding variants) is presented at 8 clock positions around issue and expiry: the wrapped handler must run iff the token is one the codec minted and nbf <= now < exp. Attribute exposure and RequireAttribute are checked relationally over 8 assertion shapes.",
          "DESIGN.md §3 C16", "golang-jwt is used harness-side to sign the forged tokens; both saml.TimeNow and jwt.TimeFunc are pinned"),
+ "C17": ("bfs", "explicit-state breadth-first search over browser/IdP/attacker histories (states = cookie jar + flows + clock, canonicalised and deduplicated), every transition a call into the real middleware, reference model stepped in lock-step",
+         "From the empty browser, every history of bounded depth over {start flow, IdP answers, deliver with each RelayState x cookie view (jar, empty, another flow's cookie, renamed, tampered, session token as tracking cookie, expired/cleared cookies), deliver unsolicited / partially matching responses, tick across the tracking lifetime, request a page} is executed against samlsp.Middleware for several configurations; the model decides for each delivery whether a session may be established, the redirect target, which tracking cookie is cleared and the cookie attributes; states, transitions and distinct middleware requests are reported.",
+         "DESIGN.md §3 C17", "browser cookie model (RFC 6265 subset) and explicit attacker views; harness-signed responses; clock notches 1 s from the lifetime boundary"),
  "C18": ("lattice", "bounded-exhaustive enumeration (full field product with a valid signature; signature treatments x single-field deviations; both encodings and the request dispatcher; tolerance and trust configurations) against a reference model of the statement's conjunction",
          "Every combination of Destination (9) x Issuer (7) x Status (7) x IssueInstant position (8) with a valid harness signature, in POST and redirect encodings, under two tolerance settings and 2-3 trust configurations, and 15 signature treatments on otherwise valid and single-deviation responses through all four entry points, is built immediately before the call (the path uses the process clock) and must be reported valid exactly when the statement's five conditions hold.",
          "DESIGN.md §3 C18", TRUST + "; exact freshness boundary not decided (5 s margin, process clock)"),
